@@ -39,6 +39,7 @@ type l3Driver struct {
 	restartPending []int // replicas to SIGKILL + restart at the next block boundary
 	sidGen         int   // key generations handed out to did:sid rotations
 	govProposals   int
+	jumped         bool // the one long advance across an expiry has been made
 	params0        string // node parameters at the start (to label applied governance changes)
 	timeJump bool        // the next block's header time is the wall clock
 }
@@ -92,7 +93,24 @@ func (d *l3Driver) fail(rule string, trig map[string]string, format string, args
 func (d *l3Driver) apply(a *Action) {
 	switch a.Kind {
 	case "advance":
-		for i := int64(0); i < a.Blocks; i++ {
+		n := a.Blocks
+		if n > 50 {
+			// long stretches of empty blocks: replicas are still compared with each other after every
+			// block, the L2 shadow follows block by block, but snapshots / conformance dumps / exports
+			// are taken at the last block only
+			f := NewAction("advance", 0)
+			f.Blocks, f.H, f.OK = n-1, d.cl.Height, true
+			f.Extra = map[string]string{"fast": "1"}
+			d.s.Hist = append(d.s.Hist, f)
+			if len(d.restartPending) > 0 || d.every {
+				d.nextBlock() // pending restarts happen at an ordinary block boundary
+				n--
+				f.Blocks--
+			}
+			d.fastBlocks(n - 1)
+			n = 1
+		}
+		for i := int64(0); i < n; i++ {
 			d.nextBlock()
 		}
 	case "noise", "restart", "export_reinit", "jump_time":
@@ -138,6 +156,12 @@ func (d *l3Driver) noiseNow(a *Action) {
 			x := NewAction("delegate", a.Creator)
 			x.Target, x.Amount = a.Val, a.Amount
 			d.cl.call(r, &replica.Req{Op: "simulate", Tx: d.cl.SignAction(x)})
+		case "simulate-only":
+			// a storage transaction that is simulated (gas estimation) and never delivered
+			var x Action
+			if err := json.Unmarshal([]byte(a.Extra["inner"]), &x); err == nil {
+				d.cl.call(r, &replica.Req{Op: "simulate", Tx: d.cl.SignAction(&x)})
+			}
 		}
 	}
 	d.labels["noise-"+a.Extra["op"]]++
@@ -280,6 +304,40 @@ func (d *l3Driver) nextBlock() {
 	d.cl.Begin(nil)
 }
 
+// fastBlocks runs k empty blocks: the replicas loop inside their own processes (concurrently), then
+// the shadow follows block by block with the replicas' application hashes as header seeds. The
+// replicas are compared with each other for every block; the shadow is not observed (no snapshot,
+// no oracle boundary, no conformance dump, no export) until the caller's next ordinary block.
+func (d *l3Driver) fastBlocks(k int64) {
+	if k <= 0 {
+		return
+	}
+	h0 := d.cl.Height
+	hashes, evs := d.cl.EmptyBlocks(k)
+	for b := int64(0); b < k; b++ {
+		if len(hashes) > 1 && d.prop != "C18" {
+			var hs [][]byte
+			var es []string
+			for r := range hashes {
+				if int64(len(hashes[r])) <= b {
+					infra("replica %d returned %d of %d blocks", r, len(hashes[r]), k)
+				}
+				hs = append(hs, hashes[r][b])
+				es = append(es, fmt.Sprintf("%x", evs[r][b]))
+			}
+			d.compareBlock(h0+b, hs, es)
+		}
+		if err := d.s.C.EndBlock(); err != nil {
+			d.s.liveness(err)
+		}
+		d.s.C.NextSeed, d.s.C.NextSeedSet = hashes[0][b], true
+		if err := d.s.C.BeginBlock(); err != nil {
+			d.s.liveness(err)
+		}
+	}
+	d.blockDirty = false
+}
+
 // setup registers providers and payment addresses through real transactions.
 func (d *l3Driver) setup() {
 	for _, p := range d.cfg.Providers {
@@ -305,7 +363,7 @@ func (d *l3Driver) setup() {
 func (d *l3Driver) genStep(t *rapid.T) *Action {
 	s, cfg := d.s, d.cfg
 	var a *Action
-	switch rapid.IntRange(0, 21).Draw(t, "step") {
+	switch rapid.IntRange(0, 23).Draw(t, "step") {
 	case 0, 1, 2:
 		a = cfg.GenStoreNew(t, s)
 		if a != nil {
@@ -351,6 +409,10 @@ func (d *l3Driver) genStep(t *rapid.T) *Action {
 		a = d.govParamArm(t)
 	case 20:
 		a = d.genCapacity(t)
+	case 21:
+		a = d.genSimulateOnly(t)
+	case 22:
+		a = d.genExpiryJump(t)
 	}
 	if a == nil {
 		a = NewAction("advance", 0)
@@ -490,6 +552,80 @@ func (d *l3Driver) govParamArm(t *rapid.T) *Action {
 	v2.Order = p.Order
 	d.labels["gov-param-arm"]++
 	return v2
+}
+
+// genSimulateOnly: a renewal, update or completion is simulated on one or all replicas and never delivered.
+func (d *l3Driver) genSimulateOnly(t *rapid.T) *Action {
+	s, cfg := d.s, d.cfg
+	var x *Action
+	switch rapid.IntRange(0, 2).Draw(t, "simulated") {
+	case 0:
+		x = cfg.GenRenew(t, s)
+	case 1:
+		x = cfg.GenStoreUpdate(t, s)
+	default:
+		x = cfg.GenComplete(t, s)
+	}
+	if x == nil {
+		return nil
+	}
+	b, err := json.Marshal(x)
+	if err != nil {
+		return nil
+	}
+	a := NewAction("noise", 0)
+	a.Target = rapid.SampledFrom([]int{-1, 0, 0, 1}).Draw(t, "simTarget")
+	if a.Target >= len(d.cl.Reps) {
+		a.Target = 0
+	}
+	a.Extra = map[string]string{"op": "simulate-only", "inner": string(b), "what": x.Kind}
+	return a
+}
+
+// genExpiryJump: once per case, run the chain across the nearest scheduled end of a shard's or a
+// model's paid term (thousands of blocks: whatever process memory holds meets the expiry handling).
+func (d *l3Driver) genExpiryJump(t *rapid.T) *Action {
+	if d.jumped || d.prop == "C18" || rapid.IntRange(0, 4).Draw(t, "jumpNow") != 0 {
+		return nil
+	}
+	// first, non-consensus traffic that touches the schedules: a renewal (it moves the model's end of
+	// life) is simulated on one replica, or on all of them followed by a restart of the second one
+	x := d.cfg.GenRenew(t, d.s)
+	if x == nil {
+		return nil
+	}
+	best := int64(0)
+	for k, ids := range d.s.Last.ExpData {
+		for _, id := range ids {
+			for _, r := range x.Data {
+				if id == r && int64(k) > best {
+					best = int64(k)
+				}
+			}
+		}
+	}
+	h := d.s.C.Height
+	if best <= h || best-h > 13000 {
+		return nil
+	}
+	b, err := json.Marshal(x)
+	if err != nil {
+		return nil
+	}
+	n := NewAction("noise", 0)
+	n.Target = rapid.SampledFrom([]int{0, -1}).Draw(t, "simTarget")
+	n.Extra = map[string]string{"op": "simulate-only", "inner": string(b), "what": x.Kind}
+	d.apply(n)
+	if n.Target < 0 && len(d.cl.Reps) > 1 {
+		r := NewAction("restart", 0)
+		r.Target = 1
+		d.apply(r)
+	}
+	d.jumped = true
+	d.labels["expiry-jump"]++
+	a := NewAction("advance", 0)
+	a.Blocks = best - h + int64(rapid.IntRange(1, 3).Draw(t, "past"))
+	return a
 }
 
 // genUnknownIds: several data ids nobody stored (requests that list them answer per id; the order
